@@ -209,7 +209,18 @@ class Classifier:
                     else:
                         self.add("escape", p, "elements handed to a lambda by non-const reference in %s" % fnname)
                     return
-                if fnname.endswith(("std::move", "std::forward", "std::ref", "std::addressof")):
+                if fnname.endswith("std::move"):
+                    # std::move of the pointer re-seats this object's own pointer; std::move of the (non-const) pointee
+                    # hands the shared object's content to whoever receives the rvalue: every other holder is left
+                    # with a moved-from object
+                    mt = ((p.get("targs") or p.get("pt") or [""])[0] or "").strip()
+                    core_t = mt.rstrip("&").strip()
+                    if mt and not PTR_LIKE.search(mt) and not (core_t.startswith("const ") or core_t.endswith(" const")):
+                        self.add("escape", p, "moved from (std::move of `%s`) through %s" % (core_t, via or "the handle"))
+                        return
+                    cur = p
+                    continue
+                if fnname.endswith(("std::forward", "std::ref", "std::addressof")):
                     cur = p
                     continue
                 if fnname.endswith(("std::cref",)):
